@@ -112,6 +112,130 @@ type enumerator struct {
 	c        Config
 	out      []Path
 	overflow bool
+	roots    []*ast.BlockStmt // the body under enumeration and the helper bodies being followed
+	closures map[*ast.CallExpr]*ast.BlockStmt
+}
+
+// closureDef: the function literal a local variable is bound to by its only definition
+// (transfer := func(name string, id int32) {...}) inside the bodies being walked.
+func (e *enumerator) closureDef(obj types.Object) *ast.FuncLit {
+	var lit *ast.FuncLit
+	n := 0
+	for _, root := range e.roots {
+		ast.Inspect(root, func(m ast.Node) bool {
+			switch v := m.(type) {
+			case *ast.AssignStmt:
+				for i, l := range v.Lhs {
+					if id, ok := l.(*ast.Ident); ok && e.c.Info.ObjectOf(id) == obj {
+						n++
+						if len(v.Lhs) == len(v.Rhs) {
+							lit, _ = ast.Unparen(v.Rhs[i]).(*ast.FuncLit)
+						}
+					}
+				}
+			case *ast.ValueSpec:
+				for i, nm := range v.Names {
+					if e.c.Info.Defs[nm] == obj {
+						n++
+						if i < len(v.Values) {
+							lit, _ = ast.Unparen(v.Values[i]).(*ast.FuncLit)
+						}
+					}
+				}
+			}
+			return true
+		})
+		if n > 0 {
+			break
+		}
+	}
+	if n != 1 {
+		return nil
+	}
+	return lit
+}
+
+// closureBody: the body of a call of a local closure, parameters replaced by the arguments. The
+// closure shares the variables of the function it is written in, so running its body at the call is
+// exact (a return inside it ends the closure only, like the return of a followed helper).
+func (e *enumerator) closureBody(call *ast.CallExpr) *ast.BlockStmt {
+	if e.c.Info == nil {
+		return nil
+	}
+	if b, ok := e.closures[call]; ok {
+		return b
+	}
+	if e.closures == nil {
+		e.closures = map[*ast.CallExpr]*ast.BlockStmt{}
+	}
+	var out *ast.BlockStmt
+	if id, ok := ast.Unparen(call.Fun).(*ast.Ident); ok {
+		if v, ok := e.c.Info.Uses[id].(*types.Var); ok && !v.IsField() && v.Parent() != nil && v.Pkg() != nil && v.Parent() != v.Pkg().Scope() {
+			if lit := e.closureDef(v); lit != nil && !variadicLit(lit) {
+				repl := map[types.Object]ast.Expr{}
+				i := 0
+				okArgs := true
+				for _, f := range lit.Type.Params.List {
+					for _, n := range f.Names {
+						if i >= len(call.Args) {
+							okArgs = false
+							break
+						}
+						if o := e.c.Info.Defs[n]; o != nil {
+							repl[o] = call.Args[i]
+						}
+						i++
+					}
+					if len(f.Names) == 0 {
+						i++
+					}
+				}
+				if okArgs && i == len(call.Args) {
+					out, _ = Subst(e.c.Info, lit.Body, repl).(*ast.BlockStmt)
+				}
+			}
+		}
+	}
+	e.closures[call] = out
+	return out
+}
+
+// isClosureDef: a statement that only binds function literals to locals (the literal's body runs
+// where the closure is called, not where it is written).
+func isClosureDef(s ast.Stmt) bool {
+	switch v := s.(type) {
+	case *ast.AssignStmt:
+		if len(v.Rhs) == 0 || len(v.Lhs) != len(v.Rhs) {
+			return false
+		}
+		for i, r := range v.Rhs {
+			if _, ok := ast.Unparen(r).(*ast.FuncLit); !ok {
+				return false
+			}
+			if _, ok := v.Lhs[i].(*ast.Ident); !ok {
+				return false
+			}
+		}
+		return true
+	case *ast.DeclStmt:
+		gd, ok := v.Decl.(*ast.GenDecl)
+		if !ok || gd.Tok != token.VAR || len(gd.Specs) == 0 {
+			return false
+		}
+		for _, sp := range gd.Specs {
+			vs, ok := sp.(*ast.ValueSpec)
+			if !ok || len(vs.Values) == 0 {
+				return false
+			}
+			for _, r := range vs.Values {
+				if _, ok := ast.Unparen(r).(*ast.FuncLit); !ok {
+					return false
+				}
+			}
+		}
+		return true
+	}
+	return false
 }
 
 type kont func(p Path, ctl string) // ctl: "" fallthrough, "ret", "break", "continue", "panic"
@@ -124,7 +248,7 @@ func Enumerate(body *ast.BlockStmt, c Config) (paths []Path, overflow bool) {
 	if c.MaxInline == 0 {
 		c.MaxInline = 3
 	}
-	e := &enumerator{c: c}
+	e := &enumerator{c: c, roots: []*ast.BlockStmt{body}}
 	e.block(body.List, nil, 0, func(p Path, ctl string) {
 		if len(e.out) >= c.MaxPaths {
 			e.overflow = true
@@ -160,13 +284,14 @@ func (e *enumerator) block(list []ast.Stmt, p Path, depth int, k kont) {
 func (e *enumerator) events(n ast.Node, p Path, depth int, k func(Path)) {
 	// inline same-receiver helper calls found in the node, then classify the node itself
 	var calls []*ast.CallExpr
-	if e.c.Inline != nil && depth < e.c.MaxInline {
+	bodyOf := e.bodyOf
+	if depth < e.c.MaxInline {
 		ast.Inspect(n, func(m ast.Node) bool {
 			if _, ok := m.(*ast.FuncLit); ok {
 				return false
 			}
 			if c, ok := m.(*ast.CallExpr); ok {
-				if e.c.Inline(c) != nil {
+				if bodyOf(c) != nil {
 					calls = append(calls, c)
 				}
 			}
@@ -182,8 +307,10 @@ func (e *enumerator) events(n ast.Node, p Path, depth int, k func(Path)) {
 			k(p)
 			return
 		}
-		body := e.c.Inline(calls[i])
+		body := bodyOf(calls[i])
 		enterAt := len(p)
+		e.roots = append(e.roots, body)
+		defer func() { e.roots = e.roots[:len(e.roots)-1] }()
 		e.block(body.List, append(p, Event{Kind: "ENTER", Pos: calls[i].Pos(), Node: calls[i]}), depth+1, func(p2 Path, ctl string) {
 			if ctl == "panic" {
 				return
@@ -198,6 +325,16 @@ func (e *enumerator) events(n ast.Node, p Path, depth int, k func(Path)) {
 		})
 	}
 	run(0, p)
+}
+
+// bodyOf: the body to follow for a call (a helper the rule follows, or a local closure), or nil.
+func (e *enumerator) bodyOf(c *ast.CallExpr) *ast.BlockStmt {
+	if e.c.Inline != nil {
+		if b := e.c.Inline(c); b != nil {
+			return b
+		}
+	}
+	return e.closureBody(c)
 }
 
 func (e *enumerator) cond(c ast.Expr, p Path, depth int, k func(p Path, val bool)) {
@@ -228,6 +365,29 @@ func (e *enumerator) cond(c ast.Expr, p Path, depth int, k func(p Path, val bool
 	if ue, ok := ast.Unparen(c).(*ast.UnaryExpr); ok && ue.Op == token.NOT {
 		e.cond(ue.X, p, depth, func(p2 Path, v bool) { k(p2, !v) })
 		return
+	}
+	// a followed predicate helper used as the condition: its outcome is what its return statement
+	// evaluates to on the path taken through it, not an independent coin
+	if call, ok := ast.Unparen(c).(*ast.CallExpr); ok && depth < e.c.MaxInline && e.c.Info != nil {
+		if b, isB := e.c.Info.TypeOf(call).(*types.Basic); isB && b.Info()&types.IsBoolean != 0 {
+			if body := e.bodyOf(call); body != nil && singleResultReturns(body) {
+				e.roots = append(e.roots, body)
+				defer func() { e.roots = e.roots[:len(e.roots)-1] }()
+				e.block(body.List, append(p, Event{Kind: "ENTER", Pos: call.Pos(), Node: call}), depth+1, func(p2 Path, ctl string) {
+					if ctl != "ret" || len(p2) == 0 {
+						return
+					}
+					rs, _ := p2[len(p2)-1].Node.(*ast.ReturnStmt)
+					if rs == nil || len(rs.Results) != 1 {
+						return
+					}
+					e.cond(rs.Results[0], p2, depth+1, func(p3 Path, v bool) {
+						k(append(p3, Event{Kind: "LEAVE", Pos: call.Pos()}), v)
+					})
+				})
+				return
+			}
+		}
 	}
 	e.events(c, p, depth, func(p2 Path) {
 		for _, v := range []bool{true, false} {
@@ -491,6 +651,10 @@ func (e *enumerator) stmt(s ast.Stmt, p Path, depth int, k kont) {
 	case *ast.TypeSwitchStmt, *ast.GoStmt:
 		k(append(p, Event{Kind: "OPAQUE", Pos: v.Pos(), Node: v}), "")
 	default:
+		if isClosureDef(s) {
+			k(p, "")
+			return
+		}
 		e.events(s, p, depth, func(p2 Path) { k(p2, "") })
 	}
 }
@@ -643,4 +807,35 @@ func (e *enumerator) resultFacts(as *ast.AssignStmt, p Path, from int) []Event {
 		}
 	}
 	return out
+}
+
+func variadicLit(lit *ast.FuncLit) bool {
+	if lit.Type.Params == nil {
+		return false
+	}
+	for _, f := range lit.Type.Params.List {
+		if _, ok := f.Type.(*ast.Ellipsis); ok {
+			return true
+		}
+	}
+	return false
+}
+
+// singleResultReturns: every return statement of the body (outside nested literals) has exactly one
+// result, and there is at least one.
+func singleResultReturns(body *ast.BlockStmt) bool {
+	n, ok := 0, true
+	ast.Inspect(body, func(m ast.Node) bool {
+		switch v := m.(type) {
+		case *ast.FuncLit:
+			return false
+		case *ast.ReturnStmt:
+			n++
+			if len(v.Results) != 1 {
+				ok = false
+			}
+		}
+		return true
+	})
+	return ok && n > 0
 }
